@@ -439,7 +439,7 @@ class Check:
         return None
 
     def write_replay(self, rec):
-        d = os.path.join(VERIF, 'replays', self.pid)
+        d = os.path.join(os.environ.get('VERIF_REPLAY_DIR') or os.path.join(VERIF, 'replays'), self.pid)
         os.makedirs(d, exist_ok=True)
         h = hashlib.sha1(json.dumps(rec, sort_keys=True, default=str).encode()).hexdigest()[:12]
         path = os.path.join(d, h + '.json')
@@ -739,8 +739,10 @@ def run_check(mod, tier, seed):
     ev['known_findings'] = known_lines
     ev['wall_s'] = round(time.time() - ck.t0, 2)
     ev['log'] = ck.logs
-    os.makedirs(os.path.join(VERIF, 'evidence'), exist_ok=True)
-    json.dump(ev, open(os.path.join(VERIF, 'evidence', pid + '.json'), 'w'), indent=1, default=str)
+    # evidence goes to /verif/evidence unless the run is a self-test against a scratch copy of the repository
+    evdir = os.environ.get('VERIF_EVIDENCE_DIR') or os.path.join(VERIF, 'evidence')
+    os.makedirs(evdir, exist_ok=True)
+    json.dump(ev, open(os.path.join(evdir, pid + '.json'), 'w'), indent=1, default=str)
     for l in known_lines:
         print(l)
     for l in out_lines:
